@@ -99,11 +99,11 @@ func Start(t *testing.T, id, level string) *Run {
 	// soft memory limit: enumerations that produce garbage at a high rate on 16 cores let the
 	// heap grow to tens of GiB under the default pacing; the limit only makes the collector
 	// work earlier, it never fails an allocation
-	memMB, _ := strconv.Atoi(env("VERIF_MEMLIMIT_MB", ""))
-	if memMB <= 0 {
-		memMB = 6144
+	// (only where asked for — VERIF_MEMLIMIT_MB, set by ./check for C08 — because a process
+	// whose live data legitimately approaches the limit would collect without end)
+	if memMB, _ := strconv.Atoi(env("VERIF_MEMLIMIT_MB", "")); memMB > 0 {
+		debug.SetMemoryLimit(int64(memMB) << 20)
 	}
-	debug.SetMemoryLimit(int64(memMB) << 20)
 	// known_findings.json plus per-property files known_findings_<ID>.json (large lists)
 	files := []string{filepath.Join(VerifDir(), "known_findings.json"), filepath.Join(VerifDir(), "known_findings_"+id+".json")}
 	if x := os.Getenv("VERIF_EXTRA_FINDINGS"); x != "" {
